@@ -201,12 +201,15 @@ def walk_all(node):
         n = stack.pop()
         if isinstance(n, dict):
             yield n
+            ch = []
             for key, v in n.items():
                 if key in ("fn", "var", "pat", "poll_fn", "iter_fn", "next_fn", "eq_fn", "residual_fn"):
                     continue
                 if isinstance(v, dict):
-                    stack.append(v)
+                    ch.append(v)
                 elif isinstance(v, list):
-                    for x in reversed(v):
+                    for x in v:
                         if isinstance(x, dict):
-                            stack.append(x)
+                            ch.append(x)
+            # pre-order, children in source order (dict keys are emitted by the exporter in source order)
+            stack.extend(reversed(ch))
